@@ -27,7 +27,7 @@ RULE = (
 )
 ASSUMPTIONS = [
     "scipy.stats.qmc engines are the reference for the point sets (trusted)",
-    "default sampler options only (bounded-range clause is stated for defaults)",
+    "uniform/truncnorm are also generated with explicit range options next to default-option samplers; QMC methods with defaults only",
     "'drawn per realization' is checked as: realizations are not all identical when R>=2 (probability-zero event otherwise)",
 ]
 
@@ -48,7 +48,7 @@ def build_config(case: dict[str, Any]) -> EnOptConfig:
             "boundary_types": 1,
             "seed": case["seed"],
         },
-        "samplers": [{"method": s["method"], "shared": s["shared"]} for s in case["samplers"]],
+        "samplers": [{"method": s["method"], "shared": s["shared"], "options": s.get("options") or {}} for s in case["samplers"]],
     }
     if case.get("mask") is not None:
         cfg["variables"]["mask"] = case["mask"]
@@ -94,7 +94,14 @@ def check_samples(case: dict[str, Any], spec: dict[str, Any], mask: np.ndarray, 
             check(not bool(np.all(h == h[:1])), "not-per-realization",
                   f"{method}: all realizations received identical perturbations without shared", case)
         if method in BOUNDED:
-            check(bool(np.all(np.abs(h) <= 1.0)), "out-of-range", f"{method}: sample outside [-1, 1]: {np.abs(h).max()}", case)
+            opts = spec.get("options") or {}
+            limit = 1.0
+            if method == "uniform" and opts:
+                limit = max(abs(opts["loc"]), abs(opts["loc"] + opts["scale"]))
+            elif method == "truncnorm" and opts:
+                limit = max(abs(opts["a"]), abs(opts["b"]))
+            check(bool(np.all(np.abs(h) <= limit)), "out-of-range",
+                  f"{method} (options {opts}): sample outside [-{limit}, {limit}]: {np.abs(h).max()}", case)
         points = h[0] if shared else h.reshape(-1, d)
         n_points = points.shape[0]
         if method == "lhs":
@@ -179,6 +186,11 @@ def hypothesis_shard(item: dict[str, Any]) -> Collector:
         }
         s_n = draw(st.integers(1, 3))
         case["samplers"] = [{"method": draw(methods), "shared": draw(st.booleans())} for _ in range(s_n)]
+        for spec in case["samplers"]:  # explicit range options next to default ones
+            if spec["method"] == "uniform" and draw(st.integers(0, 2)) == 0:
+                spec["options"] = {"loc": -4.0, "scale": 8.0}
+            elif spec["method"] == "truncnorm" and draw(st.integers(0, 2)) == 0:
+                spec["options"] = {"a": -3.0, "b": 3.0}
         mask = None
         if draw(st.booleans()):
             mask = draw(st.lists(st.booleans(), min_size=n, max_size=n))
